@@ -26,6 +26,11 @@ from hypothesis import strategies as st
 from tqv import gen, ref
 from tqv.core import SubCheck, Violation, req
 
+# caller-owned arrays handed to the library must come back unchanged (see tqv/purity.py)
+from tqv.purity import install as _install_purity  # noqa: E402
+
+_install_purity('toqito.perms')
+
 PROPERTY = "C18"
 EXHAUSTIVE = True
 TOL = 1e-9
